@@ -19,6 +19,8 @@ use vh::report::Tier;
 
 #[path = "../shared/tokens.rs"]
 mod tokens;
+#[path = "../shared/rwa_wrap.rs"]
+mod rwa_wrap;
 #[path = "/repo/examples/fungible-allowlist/src/contract.rs"]
 mod allowlist_example;
 #[path = "/repo/examples/fungible-blocklist/src/contract.rs"]
@@ -34,6 +36,9 @@ enum Flavour {
     Base,
     AllowList,
     BlockList,
+    Votes,
+    /// RWA wrapper, gates open; only the holder-initiated moves (transfer, transfer_from, approve)
+    Rwa,
     Vault,
 }
 
@@ -173,6 +178,23 @@ impl World for Tok {
                 call_mocked(&e, &c, "mint", (u[1].clone(), 3i128).into_val(&e)).expect("mint");
                 c
             }
+            Flavour::Votes => {
+                let c = e.register(tokens::VotesTok, ());
+                call_mocked(&e, &c, "mint", (u[0].clone(), 5i128).into_val(&e)).expect("mint");
+                call_mocked(&e, &c, "mint", (u[1].clone(), 3i128).into_val(&e)).expect("mint");
+                c
+            }
+            Flavour::Rwa => {
+                let comp = e.register(rwa_wrap::MockCompliance, ());
+                let ver = e.register(rwa_wrap::MockVerifier, ());
+                for k in 0..N {
+                    call_mocked(&e, &ver, "set_verified", (u[k].clone(), true).into_val(&e)).expect("verify");
+                }
+                let c = e.register(rwa_wrap::RwaTok, (comp, ver));
+                call_mocked(&e, &c, "mint", (u[0].clone(), 5i128).into_val(&e)).expect("mint");
+                call_mocked(&e, &c, "mint", (u[1].clone(), 3i128).into_val(&e)).expect("mint");
+                c
+            }
             Flavour::AllowList => {
                 let c = e.register(allowlist_example::ExampleContract, (name, sym, u[0].clone(), manager.clone(), 8i128));
                 for k in 1..N {
@@ -249,7 +271,7 @@ impl World for Tok {
                     v.push(Op::TransferFrom { s: *s, from: *from, to, a });
                 }
             }
-            if !vault && self.flavour != Flavour::BlockList {
+            if !vault && self.flavour != Flavour::BlockList && self.flavour != Flavour::Rwa {
                 for a in dedup(vec![0, 1, al, al + 1]) {
                     v.push(Op::BurnFrom { s: *s, from: *from, a });
                 }
@@ -278,7 +300,7 @@ impl World for Tok {
                 v.push(Op::VDeposit { op: k, from: k, a: 1 });
             }
         }
-        if !vault && self.flavour != Flavour::BlockList {
+        if !vault && self.flavour != Flavour::BlockList && self.flavour != Flavour::Rwa {
             for from in 0..N {
                 for a in dedup(vec![0, 1, o.bal[from]]) {
                     v.push(Op::Burn { from, a });
@@ -510,9 +532,9 @@ fn main() {
         "level-BFS over histories of approve(owner,spender,amount,live_until in {0,now-1,now,now+1,now+3,max,max+1}) / transfer / transfer_from / burn / burn_from / vault withdraw,redeem,deposit by operator / advance(1|3|20) on 3 accounts + bystander; every accepted call: demanded principals = the one the statement names, re-run under enforcing auth from the rebuilt pre-state with full set / each principal dropped / bystander signing; logical allowance (amount, live_until) model compared with allowance() for all pairs after every step and after every ledger advance",
         |tier: Tier, r: &mut Runner| {
             let th = tier == Tier::Thorough;
-            for fl in [Flavour::Base, Flavour::AllowList, Flavour::BlockList, Flavour::Vault] {
+            for fl in [Flavour::Base, Flavour::AllowList, Flavour::BlockList, Flavour::Votes, Flavour::Rwa, Flavour::Vault] {
                 let d = if fl == Flavour::Vault { tier.pick(2, 3) } else { tier.pick(3, 4) };
-                r.world(&Tok { flavour: fl, thorough: th }, &Bounds::new(d, tier.pick(12, 200)));
+                r.world(&Tok { flavour: fl, thorough: th }, &Bounds::new(d, tier.pick(8, 150)));
             }
             if let Some(rep) = r.report() {
                 rep.require(
